@@ -1146,6 +1146,14 @@ def run(ctx):
     # unsynch
     run_unsynch(ctx, U, alphabet_strings(7 if ctx.thorough else 5))
     run_unsynch(ctx, U, random_strings(rng, 2000 if ctx.thorough else 300, 3000), tag="random-long")
+    # every byte value in the places where an implementation may treat it specially (after FF, at the end, at the
+    # start; line terminators and regex metacharacters included): FF x, x FF, FF x FF, FF 00 x, x alone, and as tails
+    # of alphabet strings
+    every = []
+    for x in range(256):
+        b = bytes([x])
+        every += [b, b"\xff" + b, b + b"\xff", b"\xff" + b + b"\xff", b"\xff\x00" + b, b"\x00" + b"\xff" + b, b"\xff\xff" + b, b"\xe0\xff" + b]
+    run_unsynch(ctx, U, every, tag="every-byte")
     # (c) tags
     run_tags(ctx, tag_payloads(rng, 4 if ctx.thorough else 3, 400 if ctx.thorough else 60))
     # (d)
@@ -1162,6 +1170,7 @@ def search(ctx, broken):
     run_negative(ctx, use_model=False, thorough=True)
     run_to_str(ctx, U, lat + random_values(rng, 500), bits18, WIDTHS + [(-1, 6), (7, 4), (10, 4)], use_model=False, tag="search-lattice")
     run_unsynch(ctx, U, alphabet_strings(6), use_model=False, tag="search")
+    run_unsynch(ctx, U, [p + bytes([x]) + q for x in range(256) for p in (b"", b"\xff", b"\xff\x00", b"\x00\xff") for q in (b"", b"\xff")], use_model=False, tag="search-every-byte")
     run_unsynch(ctx, U, random_strings(rng, 3000, 3000), use_model=False, tag="search-random")
     run_bpi_int(ctx, U, list(range(1 << 14)) + lat, [0] + bits18, use_model=False)
     run_bpi_bytes(ctx, U, list(alphabet_strings(5)), [0] + bits18, use_model=False)
